@@ -7,7 +7,8 @@ GROUP = dict(
     name='pkgtype',
     theory=['base.rs'],
     uses='use core::cmp::Ordering;',
-    canary='    axiom_string_from(); broadcast use axiom_ascii_to_lower;',
+    canary='    axiom_string_from(); broadcast use axiom_ascii_to_lower; axiom_lower_nonempty(\'a\'); axiom_lower_no_dash(\'a\'); axiom_lower_idem_char(\'a\');',
+    post=_c.theory_text('pypi_idem.rs'),
     units=_c.TYPES + [
         dict(id='T.PackageType', kind='enum', name='PackageType', file='purl/src/package_type.rs',
              attrs='#[derive(Clone, Copy)]'),
